@@ -673,15 +673,18 @@ impl<T> TooDee<T> {
     {
         assert!(index <= self.num_rows);
         let mut iter = data.into_iter();
-        if self.num_rows == 0 {
-            self.num_cols = iter.len();
-        } else {
-            assert_eq!(self.num_cols, iter.len());
+        // `iter` is caller code: it may panic, or report a length that does not match what it
+        // yields. `self.num_cols` / `self.num_rows` are therefore only updated once the new row
+        // is in place.
+        let num_cols = iter.len();
+        if self.num_rows != 0 {
+            assert_eq!(self.num_cols, num_cols);
         }
+        let num_rows = self.num_rows;
         
-        self.reserve(self.num_cols);
+        self.reserve(num_cols);
 
-        let start = index * self.num_cols;
+        let start = index * num_cols;
         let len = self.data.len();
 
         unsafe {
@@ -692,15 +695,21 @@ impl<T> TooDee<T> {
             // - append the new row to the array and use `slice.rotate...()` to shuffle everything into place.
             // - store the new row data in a temporary location before shifting the memory and inserting the row.
             self.data.set_len(start);
+            // Keep the dimensions in step with the truncated `Vec` while `iter` runs, so that a
+            // panic leaves a valid (smaller) array behind.
+            self.num_rows = index;
+            if index == 0 {
+                self.num_cols = 0;
+            }
             
             let mut p = self.data.as_mut_ptr().add(start);
             // shift everything to make space for the new row
-            let suffix = p.add(self.num_cols);
+            let suffix = p.add(num_cols);
             ptr::copy(p, suffix, len - start);
             
-            // Iterates exactly `self.num_cols` times. Counting (rather than comparing `p` with
+            // Iterates exactly `num_cols` times. Counting (rather than comparing `p` with
             // `suffix`) also works for zero-sized types, where the two pointers are always equal.
-            for _ in 0..self.num_cols {
+            for _ in 0..num_cols {
                 if let Some(e) = iter.next() {
                     ptr::write(p, e);
                     p = p.add(1);
@@ -712,12 +721,13 @@ impl<T> TooDee<T> {
             
             debug_assert!(iter.next().is_none(), "iterator not exhausted");
 
-            self.data.set_len(len + self.num_cols);
+            self.data.set_len(len + num_cols);
         }
 
-        // update the number of rows
-        if self.num_cols > 0 {
-            self.num_rows += 1;
+        // update the dimensions
+        if num_cols > 0 {
+            self.num_cols = num_cols;
+            self.num_rows = num_rows + 1;
         }
 
     }
